@@ -7,6 +7,7 @@ Populations travel as the `;`-separated list of the individuals' weighted-value 
 (`fitness.wvalues`, exact ratios); sizes / crowding distances as parallel `,`-lists.  The tape is
 the rest of the line, one token per recorded `random.*` call:
 `c:<i>` choice, `s:<i,j,…>` sample, `p:<i,j,…>` shuffle, `r:<q>` random()/uniform draw.
+A request may be prefixed by `canon <map>` (see `canonAnswer`).
 Answers: the selected population indices, then the number of unread tape entries; `none` when
 the model has no result (bad tape / Python exception).
 -/
@@ -46,7 +47,7 @@ def showRes : Option (List Nat × Tape) → String
   | none => "none"
   | some (l, t) => showList toString l ++ " " ++ toString t.length
 
-def handle : List String → String
+def handleCore : List String → String
   | ["best", ps, ks] =>
     match (do let p ← mkPop ps; let k ← parseNat ks; pure (p, k)) with
     | some (p, k) => showList toString (selBest p k)
@@ -90,5 +91,26 @@ def handle : List String → String
     | some (p, k, t) => showRes (selTournamentDCD p k t)
     | none => "bad-op"
   | _ => "bad-op"
+
+/-- `canon <map> <request…>`: the population lists some object more than once; `map[i]` is the first
+position holding the object of position `i`.  The selected positions are reported through `map`
+(what identity by `is` can observe). -/
+def canonAnswer (m : List Nat) (ans : String) : String :=
+  match ans.splitOn " " with
+  | first :: rest =>
+    match parseList parseNat first with
+    | some l =>
+      match l.mapM (fun i => m[i]?) with
+      | some l' => " ".intercalate (showList toString l' :: rest)
+      | none => "bad-op"
+    | none => ans
+  | [] => ans
+
+def handle : List String → String
+  | "canon" :: ms :: rest =>
+    match parseList parseNat ms with
+    | some m => canonAnswer m (handleCore rest)
+    | none => "bad-op"
+  | req => handleCore req
 
 end DriverC06
